@@ -23,8 +23,27 @@ def run(ctx):
     rows = vlib.read_ndjson(tpath)
     tail = rows[-1]
     rows = rows[:-1]
+    # gated replay: longer histories with every Send parked at a gate (callbacks fire while a batch is being sent)
+    g2 = ctx.tlc("MC_AccessGen", cfg="MC_AccessGen.cfg", timeout=900, env={"MAXLEN": maxlen + 1}, count=False)
+    import random
+    longb = sorted({m.group(1).encode().decode("unicode_escape") for m in re.finditer(r'<<"HIST", "(.*)">>', g2.out)})
+    random.Random(ctx.seed).shuffle(longb)
+    longb = [json.loads(x) for x in longb[:(400 if ctx.tier == "quick" else 4000)]]
+    gpath, gtrace = os.path.join(ctx.tmp, "access_gated.json"), os.path.join(ctx.tmp, "access_gated.ndjson")
+    json.dump(longb, open(gpath, "w"))
+    ctx.go_run("access", ["-behaviours", gpath, "-out", gtrace, "-gated"], timeout=3000)
+    grows = vlib.read_ndjson(gtrace)[:-1]
+    base = max([x["b"] for x in rows if x["e"] == "reset"] + [0]) + 1
+    for x in grows:
+        if x["e"] == "reset":
+            x["b"] = base + x["b"]
+    nstrict = len(rows)
+    rows = rows + grows
     vlib.write_ndjson(tpath, rows)
-    ctx.traces += 2 * len(behs)
+    spath = tpath + ".strict"
+    vlib.write_ndjson(spath, rows[:nstrict])
+    ctx.traces += 2 * len(behs) + len(longb)
+    ctx.cov["gated_histories"] = len(longb)
     ctx.evaluations += sum(1 for x in rows if x["e"] == "q") + tail["cid_cases"]
     for b in behs:
         acts = [s["a"] for s in b]
@@ -47,11 +66,14 @@ def run(ctx):
             for x in rows[:line]:
                 if x["e"] == "reset":
                     bi = x["b"]
-            h = behs[bi // 2] if 0 <= bi // 2 < len(behs) else None
-            ctx.violation("C36:" + (msgs[0] if msgs else "?"), "%s (history %s, %s)" % (msgs[:1], h, "burst" if bi % 2 else "big-step"), {"history": h})
+            if bi >= base:
+                h, how = (longb[bi - base] if bi - base < len(longb) else None), "gated sends"
+            else:
+                h, how = (behs[bi // 2] if 0 <= bi // 2 < len(behs) else None), ("burst" if bi % 2 else "big-step")
+            ctx.violation("C36:" + (msgs[0] if msgs else "?"), "%s (history %s, %s)" % (msgs[:1], h, how), {"history": h, "schedule": how})
         else:
             raise vlib.Infra("AccessMon did not consume the trace\n" + r.out[-2000:])
-    ok2, r2 = ctx.tlc_validate("AccessMon", "AccessMon.cfg", tpath, env={"STRICT": "1"}, dfs=False, timeout=1800)
+    ok2, r2 = ctx.tlc_validate("AccessMon", "AccessMon.cfg", spath, env={"STRICT": "1"}, dfs=False, timeout=1800)
     ctx.cov["strict_conformance"] = "accepted" if ok2 else "SPEC-DRIFT"
     if not ok2:
         vlib.log("SPEC-DRIFT property=C36: recorded traces are not behaviours of Access.tla (advisory)")
